@@ -19,6 +19,8 @@ REF_ATTRS = ["type", "encodingType", "dimensionType", "valueRef", "headerType", 
 ATTR_VOCAB = ["name", "id", "type", "primitiveType", "presence", "valueRef", "offset", "length", "minValue", "maxValue", "nullValue",
               "sinceVersion", "deprecated", "description", "semanticType", "characterEncoding", "encodingType", "dimensionType",
               "blockLength", "headerType", "byteOrder", "package", "version", "semanticVersion", "href"]
+ENUM_VALUES = {"presence": ["constant", "optional", "required"], "byteOrder": ["bigEndian", "littleEndian"],
+               "primitiveType": ["char", "int8", "uint16", "int64", "uint64", "float", "double"]}
 NUMERIC_ATTRS = {"id", "offset", "length", "sinceVersion", "deprecated", "blockLength", "version", "minValue", "maxValue", "nullValue"}
 
 
@@ -102,7 +104,7 @@ def mutants(text, quick=False, rich_add=None, add=True):
             r = clone()
             del at(r, path).attrib[a]
             yield "%s: delete attribute %s" % (lab, a), "attr-delete:%s.%s" % (tagname, local(a)), serialize(r)
-            for t in toks:
+            for t in list(toks) + ENUM_VALUES.get(local(a), []):     # garbage tokens, and every *valid* keyword of an enumerated attribute
                 if e.get(a) == t:
                     continue
                 r = clone()
